@@ -61,6 +61,9 @@ End(t) ==
 
 Next == \E t \in Threads : (\E q \in Queries : Begin(t, q)) \/ IterNext(t) \/ End(t)
 Spec == Init /\ [][Next]_vars
+\* every thread that keeps calling next() gets to the end of its answer, whatever the others do
+LiveSpec == Spec /\ \A t \in Threads : WF_vars(IterNext(t))
+Progress == \A t \in Threads : (running[t] # Idle) ~> finished[t]
 
 IsPrefix(s, t) == Len(s) <= Len(t) /\ \A p \in 1..Len(s) : s[p] = t[p]
 
